@@ -152,7 +152,7 @@ CHECKS = {
          'integer, decimal, percent and power literals of any length evaluate to exactly the number spelled, a quoted literal '
          'to exactly its content; white space (any amount, possibly none) at ANY subset of the token boundaries never changes the token '
          'sequence when the local next-character condition holds (punctuation before anything; numbers, names, cells, text before white '
-         'space / operators / separators / closing brackets; a function name before its parenthesis only); for every present/absent pattern of up to 6 slots the three separators agree and an accepted call passes '
+         'space / operators / separators / closing brackets; a function name before its parenthesis only); the three separators, chosen independently at every call (any number of arguments that are arbitrary expressions, any nesting), never change record or events; for every present/absent pattern of up to 6 slots the three separators agree and an accepted call passes '
          'exactly the slot list; array literal shapes; labels are case-insensitive. Tied to the code by the lexer '
          'correspondence on every string of length <= 3/4 over 26 class representatives and formulas through Parser.parse.',
     design='7/C05',
